@@ -87,9 +87,6 @@ struct EWorld {
    ~EWorld() { if (gw()) gw()->SetDataIO(DataIORef()); }
 };
 
-// CPU-time watchdog around every explored call: a gateway that spins dies with SIGVTALRM, which the engine attributes to the history
-static void Watchdog(double s) { struct itimerval it; memset(&it, 0, sizeof(it)); it.it_value.tv_sec = (long)s; it.it_value.tv_usec = (long)((s - (double)(long)s) * 1e6); signal(SIGVTALRM, SIG_DFL); setitimer(ITIMER_VIRTUAL, &it, NULL); }
-struct WatchdogScope { WatchdogScope(double s) { Watchdog(s); } ~WatchdogScope() { Watchdog(0); } };
 static void ArmDir(Dir & d, int first, int policy, long budget) { d.script.clear(); d.spos = 0; if (first >= 0) d.script.push_back(first); d.policy = policy; d.budget = budget; }
 static void BlockDir(Dir & d) { ArmDir(d, -1, POLICY_BLOCK, 0); }
 
@@ -230,7 +227,6 @@ public:
    int ApplyReal(World & w, int opi, std::string & msg, std::string & key) const
    {
       const Op & o = ops[(size_t)opi]; const Spec & sp = *w.spec;
-      WatchdogScope wd(20.0);
       if (!w.built) Build(w);
       AbstractMessageIOGateway & g = *w.gw(); const std::string kk = KindKey(sp.kind);
       const uint32 out0 = (uint32)w.io.out.size(), in0 = (uint32)w.io.inPos;
@@ -880,8 +876,8 @@ static bool BuildPlan(Plan & P, const verif::Args & args, verif::Result & res, s
    if (!PrepareAll(P.ws, args, PrepareWsInChild, SerializeWs, DeserializeWs, res, "websocket scenario")) return false;
    P.dupA = dup[0]; P.dupB = dup[1];
    // ---- fault-free verdicts
-   for (size_t g = 0; g < 7; g++) for (size_t i = 0; i < groups[g]->size(); i++) { const Scenario & s = (*groups[g])[i]; ffRuns += 2; if (!s.Ok()) ReportFaultFree("ff-exchange" + P.sfx, s.name, s.failKey, s.failMsg, args, res, ffKeys); }
-   for (size_t i = 0; i < P.ws.size(); i++) { ffRuns += 2; if (!P.ws[i].failKey.empty()) ReportFaultFree("ff-exchange" + P.sfx, P.ws[i].name, P.ws[i].failKey, P.ws[i].failMsg, args, res, ffKeys); }
+   for (size_t g = 0; g < 7; g++) for (size_t i = 0; i < groups[g]->size(); i++) { const Scenario & s = (*groups[g])[i]; ffRuns += 2; if (!s.Ok() && args.replay.empty()) ReportFaultFree("ff-exchange" + P.sfx, s.name, s.failKey, s.failMsg, args, res, ffKeys); }
+   for (size_t i = 0; i < P.ws.size(); i++) { ffRuns += 2; if (!P.ws[i].failKey.empty() && args.replay.empty()) ReportFaultFree("ff-exchange" + P.sfx, P.ws[i].name, P.ws[i].failKey, P.ws[i].failMsg, args, res, ffKeys); }
    // ---- SEQX models (only scenarios whose fault-free exchange works: segmentation results of a broken exchange would not count)
    struct { std::vector<Scenario> * v; EndpointModel * m; } mm[] = { { &P.bin, &P.mBin }, { &P.tpl, &P.mTpl }, { &P.txt, &P.mTxt }, { &P.raw, &P.mRaw }, { &P.slip, &P.mSlip }, { &P.cgw, &P.mC } };
    for (size_t g = 0; g < 6; g++) for (size_t i = 0; i < mm[g].v->size(); i++) {
